@@ -215,6 +215,32 @@ void replay12(Options const& o, Shim* s, Recorder& rec)
     }
   rec.add_states(1,1,1);
   }
+bool judge11(Shim* s, Recorder& rec, std::string const& kind, std::vector<u64> const& a, u64 value, u64 idx)
+  {
+  C11 c(rec); DirectViol d{rec};
+  if( kind == "un" && a.size() == 2 && a[0] == U_ATAN )
+    { i64 x = static_cast<i64>(a[1]), got = static_cast<i64>(value); if( x > -LIM47 && x < LIM47 ) c.atan1(s, x, got, -got, idx, d); return true; }     // oddness is a relation between two calls: judged as a law line
+  if( kind == "bin" && a.size() == 3 && a[0] == B_ATAN2 )
+    { i64 y = static_cast<i64>(a[1]), x = static_cast<i64>(a[2]); if( y > -LIM47 && y < LIM47 && x > -LIM47 && x < LIM47 ) c.atan2(s, y, x, static_cast<i64>(value), idx, d); return true; }
+  return false;
+  }
+bool judge12(Shim* s, Recorder& rec, std::string const& kind, std::vector<u64> const& a, u64 value, u64 idx)
+  {
+  if( !(kind == "un" && a.size() == 2 && (a[0] == U_ASIN || a[0] == U_ACOS)) ) return false;
+  C12 c(rec);
+  int op = static_cast<int>(a[0]); i64 x = static_cast<i64>(a[1]), got = static_cast<i64>(value);
+  if( !fx_finite(x) && !fx_isnan(x) ) return true;
+  const char* nm = op == U_ASIN ? "asin" : "acos";
+  if( x > 65536 || x < -65536 ) { if( !fx_isnan(got) ) rec.viol(c.c_not_nan_out, idx, [&]{ return ex1(s, nm, "", {{"x",to_s(x)}}, "NaN (|x| > 1)", to_s(got), "out", {}); }); return true; }
+  if( fx_isnan(got) ) { rec.viol(c.c_nan_in, idx, [&]{ return ex1(s, nm, "", {{"x",to_s(x)}}, "a value", "NaN", "in", {}); }); return true; }
+  Interval iv = C12::one(x, nullptr);
+  if( op == U_ASIN ) { if( got < iv.lo || got > iv.hi ) rec.viol(c.c_acc, idx, [&]{ return ex1(s, "asin", "", {{"x",to_s(x)}}, "raw in [" + to_s(iv.lo) + "," + to_s(iv.hi) + "] (asin(x -+ 2ulp) -+ 4ulp)", to_s(got), "in", {}); }); }
+  else { i64 lo = 102943 - iv.hi, hi = 102944 - iv.lo;     // acos within 1 ulp of pi/2 - asin(x) for SOME admissible asin(x): a necessary condition; the relation itself is a law line
+         if( got < lo || got > hi ) rec.viol(c.c_acos, idx, [&]{ return ex1(s, "acos", "", {{"x",to_s(x)}}, "raw in [" + to_s(lo) + "," + to_s(hi) + "] (within 1 ulp of pi/2 - an admissible asin(x))", to_s(got), "in", {}); }); }
+  return true;
+  }
 }
 REGISTER_PROPERTY(C11, explore11, replay11)
+REGISTER_JUDGE(C11, judge11)
+REGISTER_JUDGE(C12, judge12)
 REGISTER_PROPERTY(C12, explore12, replay12)
